@@ -386,7 +386,7 @@ func TestVerifC02(t *testing.T) {
 	rapid.Check(t, func(rt *rapid.T) {
 		c := genC02(rt)
 		v, nt, inc := runC02(c)
-		if inc {
+		if inc || (v != nil && vFlapsSinceMark() > 0) {
 			col.Inconclusive()
 			return
 		}
